@@ -94,7 +94,7 @@ def run_suite(suite, tier, seed):
                     if abs((f[1] - f[0]) - (f[-1] - f[-2])) < 1e-12:
                         f[-1] = f[-1] + (f[-1] - f[-2]) / 2
             else:
-                fs = gen.mesh_case(rng, cname, nmax=nmax(tier), uniform=(k % 5 == 4), nmin=1)
+                fs = gen.mesh_case(rng, cname, nmax=nmax(tier), uniform=(k % 5 == 4), nmin=1, big=(k % 20 == 7))
             mesh = gen.build_mesh(pf, cname, fs)
             label = {"cls": cname, "faces": [list(map(float, f)) for f in fs]}
             try:
